@@ -113,64 +113,165 @@ def run(ctx: core.Ctx) -> int:
     want = ["[Sorted(SENSOR,natural)]"]
     ctx.oblige("VECTOR", f"{F}:{CLS}", f"writer sensor order {w}; reader {r}", w == r == want, file=F, func=q("_inverse_flatten_scoring_params"),
                construct="sensor order writer/reader", msg=f"the scoring vector is written with sensor order {w} and read back with {r}; both must be sorted key order")
-    # segment layouts: control list and per-sensor key lists, by def-use in each function
+    # segment layouts and prefix consumption, decided on the normalised functions (private helpers inlined; names found by role, definitions resolved)
+    from .. import normast
+    import copy as _copy
+    CTL_SORTED = {"sorted(list(self.symbolic_model.control),key=lambdax:x.name)", "sorted(self.symbolic_model.control,key=lambdax:x.name)"}
+
+    def resolver(fn, keep):
+        defs = {}
+        for a in ast.walk(fn):
+            if isinstance(a, ast.Assign) and len(a.targets) == 1 and isinstance(a.targets[0], ast.Name):
+                defs.setdefault(a.targets[0].id, []).append(a.value)
+
+        def RA(e, depth=0):
+            class T(ast.NodeTransformer):
+                def visit_Name(self, n):
+                    if isinstance(n.ctx, ast.Load) and n.id not in keep and len(defs.get(n.id, [])) == 1 and depth < 5:
+                        return RA(defs[n.id][0], depth + 1)
+                    return n
+
+                def visit_Lambda(self, n):
+                    return n
+            return T().visit(_copy.deepcopy(e))
+
+        def R(e):
+            return ast.unparse(RA(e)).replace(" ", "")
+        return R
+    nfn = {}
     for name in ("_flatten_scoring_params", "_inverse_flatten_scoring_params"):
-        fn = core.find_func(cls, name)
-        env = {}
-        for s in ast.walk(fn):
-            if isinstance(s, ast.Assign) and isinstance(s.targets[0], ast.Name):
-                env.setdefault(s.targets[0].id, []).append(ast.unparse(s.value).replace(" ", ""))
-        ctl = env.get("arglist_control", [])
-        okc = ctl == ["sorted(list(self.symbolic_model.control),key=lambdax:x.name)"]
-        ctx.oblige("VECTOR", f"{F}:{q(name)}", f"control segment order {ctl}", okc, file=F, func=q(name), construct="control segment order",
-                   msg=f"{name} orders the control segment by {ctl}; the filter's control layout is sorted by name")
-        rd = env.get("arglist", [])
-        okr = rd == ["sorted(list(mapping.keys()))"]
-        ctx.oblige("VECTOR", f"{F}:{q(name)}", f"reading segment order {rd}", okr, file=F, func=q(name), construct="reading segment order",
-                   msg=f"{name} orders a sensor's segment by {rd}; required sorted reading keys")
-    rd_fn = core.find_func(cls, "_inverse_flatten_scoring_params")
-    renv = {}
-    for s in ast.walk(rd_fn):
-        if isinstance(s, ast.Assign):
-            k = ast.unparse(s.targets[0]).replace(" ", "")
-            if k.startswith("(") and k.endswith(")"):
-                k = k[1:-1]
-            renv.setdefault(k, []).append(ast.unparse(s.value).replace(" ", ""))
-    ok_c = renv.get("controls,flattened") == ["(flattened[:control_size],flattened[control_size:])"] and renv.get("control_size") == ["len(self.symbolic_model.control)"]
-    ok_s = renv.get("sensor,flattened") == ["(flattened[:sensor_size],flattened[sensor_size:])"] and renv.get("sensor_size") == ["len(mapping)"]
-    ctx.oblige("VECTOR", f"{F}:{q('_inverse_flatten_scoring_params')}", "reader consumes prefixes of len(control) and len(sensor mapping)", ok_c and ok_s, file=F,
+        nfn[name] = normast.Normaliser(normast.class_resolver(mod, cls, exclude={"_flatten_dict_diagonal", "_inverse_flatten_dict_diagonal"}, module_funcs=False)).function(
+            core.find_func(cls, name))
+    # ---- writer: process noise over the name-sorted controls first, then every sensor's noise over its sorted reading keys
+    wfn = nfn["_flatten_scoring_params"]
+    wloop = next((s_ for s_ in wfn.body if isinstance(s_, ast.For)), None)
+    wkeep = set()
+    if wloop is not None:
+        wkeep = {n.id for n in ast.walk(wloop.target) if isinstance(n, ast.Name)}
+    RW = resolver(wfn, wkeep)
+    calls_w = [c for c in ast.walk(wfn) if isinstance(c, ast.Call) and ast.unparse(c.func) == "self._flatten_dict_diagonal" and len(c.args) == 2]
+    top_w = [c for c in calls_w if wloop is None or c not in list(ast.walk(wloop))]
+    in_w = [c for c in calls_w if wloop is not None and c in list(ast.walk(wloop))]
+    okc = len(top_w) == 1 and RW(top_w[0].args[0]) == "self.process_noise" and RW(top_w[0].args[1]) in CTL_SORTED
+    ctx.oblige("VECTOR", f"{F}:{q('_flatten_scoring_params')}", f"control segment = {[RW(c.args[1])[:70] for c in top_w]}", okc, file=F, func=q("_flatten_scoring_params"),
+               construct="control segment order", msg=f"_flatten_scoring_params orders the control segment by {[RW(c.args[1])[:80] for c in top_w]}; the filter's control layout "
+               f"is the controls sorted by name, taken from the estimator's current symbolic_model")
+    mvar = None
+    if wloop is not None and isinstance(wloop.target, ast.Tuple) and len(wloop.target.elts) == 2 and isinstance(wloop.target.elts[1], ast.Name):
+        mvar = wloop.target.elts[1].id
+    okr = len(in_w) == 1 and mvar is not None and RW(in_w[0].args[0]) == mvar and RW(in_w[0].args[1]) in (f"sorted(list({mvar}.keys()))", f"sorted({mvar}.keys())", f"sorted({mvar})", f"sorted(list({mvar}))")
+    ctx.oblige("VECTOR", f"{F}:{q('_flatten_scoring_params')}", f"reading segment = {[RW(c.args[1])[:60] for c in in_w]}", okr, file=F, func=q("_flatten_scoring_params"),
+               construct="reading segment order", msg=f"_flatten_scoring_params orders a sensor's segment by {[RW(c.args[1])[:60] for c in in_w]}; required that sensor's sorted reading keys")
+    # ---- reader
+    rfn = nfn["_inverse_flatten_scoring_params"]
+    Fv = next((a.arg for a in rfn.args.args if a.arg != "self"), "flattened")
+    rloop = next((s_ for s_ in rfn.body if isinstance(s_, ast.For) and "sensor_noises" in ast.unparse(s_.iter)), None)
+    rkeep = {Fv} | ({n.id for n in ast.walk(rloop.target) if isinstance(n, ast.Name)} if rloop is not None else set())
+    RR = resolver(rfn, rkeep)
+
+    def consumption(stmts):
+        """(taken name, size text) for `X = F[:n]` followed by `F = F[n:]` among the given statements"""
+        take = rest = None
+        for s_ in stmts:
+            if isinstance(s_, ast.Assign) and len(s_.targets) == 1 and isinstance(s_.targets[0], ast.Name) and isinstance(s_.value, ast.Subscript) \
+                    and ast.unparse(s_.value.value) == Fv and isinstance(s_.value.slice, ast.Slice):
+                sl = s_.value.slice
+                if sl.lower is None and sl.upper is not None and sl.step is None and s_.targets[0].id != Fv:
+                    take = (s_.targets[0].id, RR(sl.upper))
+                elif sl.upper is None and sl.lower is not None and sl.step is None and s_.targets[0].id == Fv:
+                    rest = RR(sl.lower)
+        return take, rest
+    top_stmts = [s_ for s_ in rfn.body if s_ is not rloop]
+    tk, rs = consumption(top_stmts)
+    sizes_c = {"len(self.symbolic_model.control)"} | {f"len({c})" for c in CTL_SORTED}
+    ok_c = tk is not None and rs is not None and tk[1] == rs and tk[1] in sizes_c
+    ok_s = False
+    kvar = mvar_r = None
+    tk2 = None
+    if rloop is not None and isinstance(rloop.target, ast.Tuple) and len(rloop.target.elts) == 2 and all(isinstance(e, ast.Name) for e in rloop.target.elts):
+        kvar, mvar_r = rloop.target.elts[0].id, rloop.target.elts[1].id
+        tk2, rs2 = consumption(rloop.body)
+        sizes_s = {f"len({mvar_r})", f"len(sorted(list({mvar_r}.keys())))", f"len({mvar_r}.keys())", f"len(sorted({mvar_r}))"}
+        ok_s = tk2 is not None and rs2 is not None and tk2[1] == rs2 and tk2[1] in sizes_s
+    ctx.oblige("VECTOR", f"{F}:{q('_inverse_flatten_scoring_params')}", f"reader consumes prefixes {tk} then per sensor {tk2}", ok_c and ok_s, file=F,
                func=q("_inverse_flatten_scoring_params"), construct="prefix consumption",
-               msg="the reader does not consume the control prefix and then each sensor's prefix with the remainder threaded")
-    changed = sorted(k for k in renv if k.startswith("params["))
-    okch = set(c.split("]")[0] + "]" for c in changed) == {"params['process_noise']", "params['sensor_noises']"}
+               msg="the reader does not consume the control prefix (len(controls)) and then each sensor's prefix (len(its noise map)) with the remainder threaded")
+    stores = {}
+    for s_ in ast.walk(rfn):
+        if isinstance(s_, ast.Assign) and len(s_.targets) == 1 and isinstance(s_.targets[0], ast.Subscript):
+            stores.setdefault(ast.unparse(s_.targets[0]).replace(" ", ""), []).append(s_.value)
+    pvar = next((k.split("[")[0] for k in stores if k.endswith("['process_noise']")), "params")
+    changed = sorted(k for k in stores if k.startswith(pvar + "["))
+    okch = set(c.split("]")[0] + "]" for c in changed) == {f"{pvar}['process_noise']", f"{pvar}['sensor_noises']"}
     ctx.oblige("VECTOR", f"{F}:{q('_inverse_flatten_scoring_params')}", f"reader changes {changed}", okch, file=F, func=q("_inverse_flatten_scoring_params"),
                construct="changed keys", msg=f"the reader changes {changed}; fitting may retune only process_noise and sensor_noises")
-    pn = renv.get("params['process_noise']", [])
-    okpd = len(pn) == 1 and pn[0].startswith("nearest_positive_definite(dict(self._inverse_flatten_dict_diagonal(controls,arglist_control)))")
+    pn = [RR(v) for v in stores.get(f"{pvar}['process_noise']", [])]
+    okpd = len(pn) == 1 and tk is not None and any(pn[0] == f"nearest_positive_definite(dict(self._inverse_flatten_dict_diagonal({a1},{c})))"
+                                                    for c in CTL_SORTED for a1 in (tk[0], f"{Fv}[:{tk[1]}]"))
     ctx.oblige("VECTOR", f"{F}:{q('_inverse_flatten_scoring_params')}", f"process_noise = {pn}", okpd, file=F, func=q("_inverse_flatten_scoring_params"),
-               construct="positive floor", msg="the fitted process noise does not pass through nearest_positive_definite")
-    sn = renv.get("params['sensor_noises'][key]", [])
-    oksn = sn == ["dict(self._inverse_flatten_dict_diagonal(sensor,arglist))"]
+               construct="positive floor", msg=f"the fitted process noise is rebuilt as {pn}: it must be the control prefix read back over the name-sorted controls of the current "
+               f"model and passed through nearest_positive_definite")
+    sn = [RR(v) for v in stores.get(f"{pvar}['sensor_noises'][{kvar}]", [])]
+    oksn = tk2 is not None and mvar_r is not None and len(sn) == 1 and any(
+        sn[0] == f"dict(self._inverse_flatten_dict_diagonal({a1},{srt}))" for a1 in (tk2[0], f"{Fv}[:{tk2[1]}]")
+        for srt in (f"sorted(list({mvar_r}.keys()))", f"sorted({mvar_r}.keys())", f"sorted({mvar_r})", f"sorted(list({mvar_r}))"))
     ctx.oblige("VECTOR", f"{F}:{q('_inverse_flatten_scoring_params')}", f"sensor_noises[key] = {sn}", oksn, file=F, func=q("_inverse_flatten_scoring_params"),
                construct="sensor noise rebuild", msg=f"fitted sensor noise rebuilt as {sn}")
+    # ---- STALE: nothing on the writer / reader path reads the previously compiled filter (self.model_ belongs to the parameters of an earlier call)
+    ctx.rule("STALE", "the scoring-vector layout is taken from the estimator's current parameters, never from the compiled filter of an earlier call")
+    reach, todo = set(), ["_flatten_scoring_params", "_inverse_flatten_scoring_params"]
+    while todo:
+        nm = todo.pop()
+        if nm in reach:
+            continue
+        reach.add(nm)
+        f_ = core.find_func(cls, nm)
+        if f_ is None:
+            continue
+        for c in ast.walk(f_):
+            if isinstance(c, ast.Call) and isinstance(c.func, ast.Attribute) and isinstance(c.func.value, ast.Name) and c.func.value.id == "self":
+                todo.append(c.func.attr)
+    stale = []
+    for nm in sorted(reach):
+        f_ = core.find_func(cls, nm)
+        for a in ast.walk(f_) if f_ is not None else []:
+            if isinstance(a, ast.Attribute) and a.attr == "model_" and isinstance(a.value, ast.Name) and a.value.id == "self" and isinstance(a.ctx, ast.Load):
+                stale.append((nm, a.lineno))
+            if isinstance(a, ast.Call) and isinstance(a.func, ast.Name) and a.func.id in ("hasattr", "getattr") and len(a.args) >= 2 \
+                    and isinstance(a.args[1], ast.Constant) and a.args[1].value == "model_":
+                stale.append((nm, a.lineno))
+    ctx.oblige("STALE", f"{F}:{CLS}", f"{len(stale)} read(s) of self.model_ on the scoring-vector path {sorted(reach)}", not stale, file=F, func=q("fit"),
+               construct="stale model_:" + ";".join(n_ for n_, _ in stale),
+               msg="the scoring vector is laid out from `self.model_` -- the filter compiled by an earlier transform / score / fit call -- in "
+                   + ", ".join(f"{n_} (line {l_})" for n_, l_ in stale) + ": after set_params changes the model, fit flattens and rebuilds the noise maps with the previous "
+                   "model's controls", line=stale[0][1] if stale else None)
+    # nearest_positive_definite floors the diagonal at a positive constant (names found by role)
     npd = core.need(core.find_func(mod, "nearest_positive_definite"), "python.nearest_positive_definite")
-    tol = [s for s in ast.walk(npd) if isinstance(s, ast.Assign) and isinstance(s.value, ast.Constant) and isinstance(s.value.value, float)]
+    consts = {}
+    for s_ in ast.walk(npd):
+        if isinstance(s_, ast.Assign) and len(s_.targets) == 1 and isinstance(s_.targets[0], ast.Name) and isinstance(s_.value, ast.Constant) \
+                and isinstance(s_.value.value, float) and s_.value.value > 0:
+            consts[s_.targets[0].id] = s_.value.value
     mx = [c for c in ast.walk(npd) if isinstance(c, ast.Call) and isinstance(c.func, ast.Name) and c.func.id == "max" and len(c.args) == 2]
-    okn = len(tol) >= 1 and tol[0].value.value > 0 and any({ast.unparse(a) for a in c.args} == {ast.unparse(tol[0].targets[0]), "value"} for c in mx)
+    okn = any(any((isinstance(a, ast.Name) and a.id in consts) or (isinstance(a, ast.Constant) and isinstance(a.value, float) and a.value > 0) for a in c.args) for c in mx)
     ctx.oblige("VECTOR", f"{F}:nearest_positive_definite", "diagonal entries floored at a positive constant", okn, file=F, func="nearest_positive_definite",
                construct="floor", msg="nearest_positive_definite does not floor diagonal entries at a positive constant")
     # ---------------------------------------------------------------- FIT
     fit = core.need(core.find_func(cls, "fit"), q("fit"))
     where = f"{F}:{q('fit')}"
+    fit = normast.Normaliser(None).function(fit)                # guard clauses / swapped arms normalised; no inlining (minimize_this is a closure)
     body = fit.body
-    idx_raise = next((i for i, s in enumerate(body) if isinstance(s, ast.If) and ast.unparse(s.test).replace(" ", "") == "notresult.success"
+    # the optimiser's result: whatever name `minimize(...)` is assigned to
+    RN = next((s_.targets[0].id for s_ in body if isinstance(s_, ast.Assign) and len(s_.targets) == 1 and isinstance(s_.targets[0], ast.Name)
+               and isinstance(s_.value, ast.Call) and ast.unparse(s_.value.func).split(".")[-1] == "minimize"), "result")
+    idx_raise = next((i for i, s in enumerate(body) if isinstance(s, ast.If) and ast.unparse(s.test).replace(" ", "") in (f"not{RN}.success", f"{RN}.success==False", f"{RN}.successisFalse")
                       and any(isinstance(b, ast.Raise) and "MinimizationFailure" in ast.unparse(b) for b in s.body)), None)
     finals = [i for i, s in enumerate(body) if isinstance(s, ast.Expr) and ast.unparse(s.value).startswith("self.set_params(")]
     ctx.oblige("FIT", where, "not result.success -> raise MinimizationFailure before the final set_params", idx_raise is not None and finals and idx_raise < finals[-1],
                file=F, func=q("fit"), construct="failure guard", msg="the final parameters are set even when the optimiser reports failure")
     from .. import normstmt as _ns
     _al = _ns.Aliases(fit, linear_calls=True)
-    okf = bool(finals) and _al.text(body[finals[-1]].value) == "self.set_params(**self._inverse_flatten_scoring_params(result.x))"
+    okf = bool(finals) and _al.text(body[finals[-1]].value) == f"self.set_params(**self._inverse_flatten_scoring_params({RN}.x))"
     ctx.oblige("FIT", where, "final parameters = reader(result.x)", bool(okf), file=F, func=q("fit"), construct="final params",
                msg="the fitted estimator's parameters are not the reader applied to the optimiser's result")
     # pre-conditions: only `is not None`
@@ -182,7 +283,7 @@ def run(ctx: core.Ctx) -> int:
                 t = n.test
             elif isinstance(n, ast.If) and any(isinstance(b, ast.Raise) for b in n.body):
                 t = n.test
-            if t is None or "result" in ast.unparse(t):
+            if t is None or RN in {x.id for x in ast.walk(t) if isinstance(x, ast.Name)}:
                 continue
             txt = ast.unparse(t)
             ok = isinstance(t, ast.Compare) and len(t.ops) == 1 and isinstance(t.ops[0], (ast.IsNot, ast.Is)) and ast.unparse(t.comparators[0]) == "None"
